@@ -86,6 +86,17 @@ Proof.
   - intros [= <-]. right. split; reflexivity.
 Qed.
 
+Lemma determine_peer_seg s s' :
+  determine_peer s = Ok s' -> i_peer (s_inf s) = true ->
+  p_seg0 (s_p s) <> 0 /\ p_seg1 (s_p s) <> 0 /\ p_seg2 (s_p s) = 0.
+Proof.
+  unfold determine_peer. intros H Ep. rewrite Ep in H. cbn in H.
+  destruct (p_seg0 (s_p s) =? 0) eqn:A; [discriminate|].
+  destruct (p_seg1 (s_p s) =? 0) eqn:B; [discriminate|].
+  destruct (negb (p_seg2 (s_p s) =? 0)) eqn:C; [discriminate|].
+  apply N.eqb_neq in A, B. apply negb_false_iff, N.eqb_eq in C. auto.
+Qed.
+
 Lemma determine_peer_nf s r : determine_peer s = Stop r -> not_forward r.
 Proof.
   unfold determine_peer.
@@ -316,7 +327,8 @@ Record ingress_facts (p : pkt) (s : st) (i : info) (h : hop) : Prop := {
   if_seglen : seglen_ok p = true;
   if_match : p_curr_inf p = inf_index_for_hf p (p_curr_hf p);
   if_nosingle : i_peer i = false -> p_seg0 p <> 1 /\ p_seg1 p <> 1 /\ p_seg2 p <> 1;
-  if_noalert : from0 ing = false -> (if i_consdir i then h_ialert h else h_ealert h) = false
+  if_noalert : from0 ing = false -> (if i_consdir i then h_ialert h else h_ealert h) = false;
+  if_peerseg : i_peer i = true -> p_seg0 p <> 0 /\ p_seg1 p <> 0 /\ p_seg2 p = 0
 }.
 
 Lemma ingress_part_ok p s :
@@ -331,6 +343,7 @@ Proof.
   apply parse_path_ok in H1 as (E1 & Ph & Pi & Pwf & Psl & Pm & Pns).
   destruct s1 as [p1 h i pe1 xo1 eg1]. cbn [s_hop s_inf s_p] in *.
   injection E1 as -> -> -> ->.
+  pose proof (determine_peer_seg _ _ H2) as Pseg. cbn [s_inf s_p] in Pseg.
   assert (Epeer : s2 = mkSt p h i (peering_of p) false 0).
   { apply determine_peer_ok in H2. cbn [s_hop s_inf s_p s_xover s_eg] in H2.
     unfold peering_of. rewrite Pi.
@@ -1173,3 +1186,213 @@ Proof.
 Qed.
 
 End C01b.
+
+Section C01c.
+Variable mac : N -> N -> N -> N -> N -> list N.
+Notation macq := (total mac).
+Variable c : cfg.
+Variable now : N.
+Variable ing : ingress.
+
+Lemma scmp_designates_hop p code ptr e out :
+  process_scion macq c now ing p = SlowPath (SpScmp ScmpParameterProblem code ptr) e out ->
+  code = CodeInvalidHopFieldMAC \/ code = CodePathExpired ->
+  ptr = hop_off p (p_curr_hf out) /\ p_curr_hf out < num_hops p /\
+  exists i h, nthN (p_infos out) (p_curr_inf out) = Some i /\
+              nthN (p_hops p) (p_curr_hf out) = Some h /\
+              (code = CodePathExpired -> expired now i h = true) /\
+              (code = CodeInvalidHopFieldMAC -> ~ mac_valid mac i h).
+Proof.
+  intros E HC. pose proof (c01_ok_model mac c now ing p) as O. unfold process in O.
+  rewrite E in O. unfold c01_ok in O.
+  assert (T : (ScmpParameterProblem =? ScmpParameterProblem) &&
+              ((code =? CodeInvalidHopFieldMAC) || (code =? CodePathExpired)) = true).
+  { destruct HC as [-> | ->]; reflexivity. }
+  rewrite T in O.
+  apply andb_true_iff in O as [O O3]. apply andb_true_iff in O as [O1 O2].
+  apply N.eqb_eq in O1. apply N.ltb_lt in O2. split; [exact O1|]. split; [exact O2|].
+  destruct (nthN (p_infos out) (p_curr_inf out)) as [i|]; [|discriminate].
+  destruct (nthN (p_hops p) (p_curr_hf out)) as [h|]; [|discriminate].
+  exists i, h. split; [reflexivity|]. split; [reflexivity|]. split.
+  - intros ->. exact O3.
+  - intros ->. cbn in O3. unfold total in O3. apply negb_true_iff in O3.
+    unfold mac_valid. intros M. rewrite <- M in O3.
+    assert (list_eqb N.eqb (h_mac h) (h_mac h) = true) by now apply list_eqb_N.
+    congruence.
+Qed.
+
+(** when the checks before it pass, an expired / wrongly MACed current hop field is
+    answered with exactly that SCMP *)
+Lemma expired_exact p s :
+  bind (parse_path p) determine_peer = Ok s ->
+  expired now (s_inf s) (s_hop s) = true ->
+  process_scion macq c now ing p =
+    SlowPath (SpScmp ScmpParameterProblem CodePathExpired (hop_ptr (s_p s))) (s_eg s) (s_p s).
+Proof.
+  intros H X. unfold process_scion, ingress_part. rewrite H. cbn [bind].
+  rewrite (expired_answered now s X). reflexivity.
+Qed.
+
+Definition upto_mac (p : pkt) : outcome :=
+  bind (bind (bind (bind (bind (bind (bind (bind (parse_path p) determine_peer)
+    (validate_hop_expiry now)) (validate_ingress_id ing)) validate_pkt_len)
+    (validate_transit_underlay_src c ing)) (validate_src_dst_ia c ing)) (validate_src_host c))
+    (update_noncons_ingress_segid ing).
+
+Lemma bad_mac_exact p s :
+  upto_mac p = Ok s ->
+  ~ mac_valid mac (s_inf s) (s_hop s) ->
+  process_scion macq c now ing p =
+    SlowPath (SpScmp ScmpParameterProblem CodeInvalidHopFieldMAC (hop_ptr (s_p s))) (s_eg s) (s_p s).
+Proof.
+  intros H X. unfold process_scion, ingress_part. unfold upto_mac in H. rewrite H. cbn [bind].
+  rewrite (bad_mac_answered mac s X). reflexivity.
+Qed.
+
+End C01c.
+
+(** * C07 *)
+Inductive pw (R : N -> info -> info -> Prop) : N -> list info -> list info -> Prop :=
+| pw_nil k : pw R k [] []
+| pw_cons k x y l l' : R k x y -> pw R (k + 1) l l' -> pw R k (x :: l) (y :: l').
+
+Lemma pw_refl (R : N -> info -> info -> Prop) : (forall k x, R k x x) -> forall l k, pw R k l l.
+Proof. intros H. induction l; intros k; constructor; auto. Qed.
+
+Lemma pw_set (R : N -> info -> info -> Prop) l : forall l' k0 n x y,
+  pw R k0 l l' -> nth_error l n = Some x -> R (k0 + N.of_nat n) x y ->
+  pw R k0 l (set_nth l' n y).
+Proof.
+  induction l as [|a t IH]; intros l' k0 n x y P Hn Hr.
+  - destruct n; discriminate.
+  - inversion P as [|k a' b t' t'' Hab Pt]; subst. destruct n as [|n]; cbn in *.
+    + injection Hn as ->. constructor; [|exact Pt]. now rewrite N.add_0_r in Hr.
+    + constructor; [exact Hab|]. eapply IH; eauto.
+      replace (k0 + 1 + N.of_nat n) with (k0 + N.of_nat (S n)) by lia. exact Hr.
+Qed.
+
+Lemma pw_setN (R : N -> info -> info -> Prop) l l' n x y :
+  pw R 0 l l' -> nthN l n = Some x -> R n x y -> pw R 0 l (set_nthN l' n y).
+Proof.
+  unfold nthN, set_nthN. intros P Hn Hr. eapply pw_set; eauto.
+  cbn. now rewrite N2Nat.id.
+Qed.
+
+(** how an info field may have been rewritten *)
+Definition step_rel (p : pkt) (k : N) (x y : info) : Prop :=
+  y = x \/
+  (seg_changeable p k = true /\
+   exists h, (nthN (p_hops p) (p_curr_hf p) = Some h \/ nthN (p_hops p) (p_curr_hf p + 1) = Some h) /\
+             y = ser_info (upd_segid x h)).
+
+Lemma step_rel_refl p k x : step_rel p k x x.
+Proof. now left. Qed.
+
+Record same_static (p q : pkt) : Prop := {
+  ss1 : p_dst_ia q = p_dst_ia p; ss2 : p_src_ia q = p_src_ia p;
+  ss3 : p_dst_type q = p_dst_type p; ss4 : p_src_type q = p_src_type p;
+  ss5 : p_dst_raw q = p_dst_raw p; ss6 : p_src_raw q = p_src_raw p;
+  ss7 : p_pay_len q = p_pay_len p; ss8 : p_pay_actual q = p_pay_actual p;
+  ss9 : p_l4_port q = p_l4_port p;
+  ss10 : p_seg0 q = p_seg0 p; ss11 : p_seg1 q = p_seg1 p; ss12 : p_seg2 q = p_seg2 p;
+  ss13 : p_hops q = p_hops p;
+  ss14 : p_meta_rsv q = p_meta_rsv p \/ p_meta_rsv q = 0
+}.
+
+(** the shape of a forwarded packet relative to the received one *)
+Record out_shape (p out : pkt) : Prop := {
+  os_static : same_static p out;
+  os_infos : pw (step_rel p) 0 (p_infos p) (p_infos out);
+  os_ptr : (p_curr_hf out = p_curr_hf p /\ p_curr_inf out = p_curr_inf p /\
+            p_meta_rsv out = p_meta_rsv p) \/
+           ((p_curr_hf out = p_curr_hf p + 1 \/ p_curr_hf out = p_curr_hf p + 2) /\
+            p_curr_inf out = inf_index_for_hf p (p_curr_hf out))
+}.
+
+Section C07.
+Variable mac : N -> N -> N -> N -> N -> list N.
+Notation macq := (total mac).
+Variable c : cfg.
+Variable now : N.
+Variable ing : ingress.
+
+Lemma ci_changeable p : seg_changeable p (p_curr_inf p) = true.
+Proof. unfold seg_changeable. now rewrite N.eqb_refl. Qed.
+
+Lemma ci1_changeable p : eff_xover p = true -> seg_changeable p (p_curr_inf p + 1) = true.
+Proof. unfold seg_changeable. intros ->. rewrite N.eqb_refl. now rewrite orb_true_r. Qed.
+
+(** infos after the ingress part *)
+Lemma ingress_infos p s i h :
+  ingress_facts mac c now ing p s i h ->
+  pw (step_rel p) 0 (p_infos p) (p_infos (s_p s)).
+Proof.
+  intros F. rewrite (if_pkt _ _ _ _ _ _ _ _ F). destruct (folds ing p i).
+  - cbn [with_infos p_infos]. eapply pw_setN.
+    + apply pw_refl. apply step_rel_refl.
+    + apply (if_inf _ _ _ _ _ _ _ _ F).
+    + right. split; [apply ci_changeable|]. exists h. split; [|reflexivity].
+      left. apply (if_hop _ _ _ _ _ _ _ _ F).
+  - apply pw_refl. apply step_rel_refl.
+Qed.
+
+Lemma ingress_static p s i h :
+  ingress_facts mac c now ing p s i h ->
+  same_static p (s_p s) /\ p_curr_hf (s_p s) = p_curr_hf p /\ p_curr_inf (s_p s) = p_curr_inf p /\
+  p_meta_rsv (s_p s) = p_meta_rsv p.
+Proof.
+  intros F. rewrite (if_pkt _ _ _ _ _ _ _ _ F).
+  destruct (folds ing p i); (split; [constructor; auto | auto]).
+Qed.
+
+Lemma xover_next p s i h s' :
+  ingress_facts mac c now ing p s i h -> egress_facts mac c now ing s s' ->
+  if eff_xover p then
+    exists i' h', nthN (p_infos p) (p_curr_inf p + 1) = Some i' /\
+                  nthN (p_hops p) (p_curr_hf p + 1) = Some h' /\
+                  s_p s' = inc_path (s_p s) /\ s_hop s' = h' /\ s_inf s' = i' /\
+                  p_curr_inf (s_p s') = p_curr_inf p + 1 /\ i_peer i = false
+  else s_p s' = s_p s /\ s_hop s' = h /\ s_inf s' = verif_info ing p i h.
+Proof.
+  intros F G. pose proof (ef_x _ _ _ _ _ _ G) as EX.
+  rewrite (xover_cond_eff _ _ _ _ _ _ _ _ F) in EX.
+  destruct (eff_xover p) eqn:X.
+  - destruct EX as (h' & i' & Eh & Ei & EP' & EH & EI & _).
+    pose proof (if_pkt _ _ _ _ _ _ _ _ F) as EP.
+    assert (Hops : p_hops (s_p s) = p_hops p) by (rewrite EP; destruct (folds ing p i); reflexivity).
+    assert (Hf : p_curr_hf (s_p s) = p_curr_hf p) by (rewrite EP; destruct (folds ing p i); reflexivity).
+    assert (E : inf_index_for_hf (s_p s) (p_curr_hf (s_p s) + 1) = inf_index_for_hf p (p_curr_hf p + 1))
+      by (rewrite EP; destruct (folds ing p i); reflexivity).
+    assert (Idx : inf_index_for_hf p (p_curr_hf p + 1) = p_curr_inf p + 1).
+    { unfold eff_xover in X. apply andb_true_iff in X as [X _].
+      unfold is_xover in X. apply andb_true_iff in X as [X1 X2].
+      apply N.ltb_lt in X1. apply negb_true_iff, N.eqb_neq in X2.
+      rewrite (if_match _ _ _ _ _ _ _ _ F) in X2 |- *.
+      apply inf_index_step; [apply (if_seglen _ _ _ _ _ _ _ _ F) | exact X1 | congruence]. }
+    rewrite E, Idx in Ei. rewrite Hops, Hf in Eh.
+    exists i', h'. split.
+    { rewrite EP in Ei. destruct (folds ing p i); [|exact Ei].
+      cbn [with_infos p_infos] in Ei. rewrite nthN_set_other in Ei; [exact Ei | lia]. }
+    split; [exact Eh|]. split; [exact EP'|]. split; [exact EH|]. split; [exact EI|]. split.
+    { rewrite EP'. cbn. rewrite E. exact Idx. }
+    (* an effective cross-over happens on a segment without the peer flag *)
+    destruct (i_peer i) eqn:PF; [|reflexivity]. exfalso.
+    unfold eff_xover, peering_of in X. apply andb_true_iff in X as [X1 X2].
+    pose proof (if_inf _ _ _ _ _ _ _ _ F) as CI. unfold cur_inf in CI. rewrite CI, PF in X2.
+    cbn [andb] in X2. apply negb_true_iff, orb_false_iff in X2 as [X2 X3].
+    apply N.eqb_neq in X2, X3.
+    destruct (if_peerseg _ _ _ _ _ _ _ _ F PF) as (Z0 & Z1 & Z2).
+    unfold is_xover in X1. apply andb_true_iff in X1 as [X1 X4].
+    apply N.ltb_lt in X1. apply negb_true_iff, N.eqb_neq in X4.
+    rewrite (if_match _ _ _ _ _ _ _ _ F) in X4.
+    unfold inf_index_for_hf, num_hops in *. rewrite Z2 in *.
+    destruct (p_curr_hf p + 1 <? p_seg0 p) eqn:A1; destruct (p_curr_hf p <? p_seg0 p) eqn:A2;
+      destruct (p_curr_hf p + 1 <? p_seg0 p + p_seg1 p) eqn:A3;
+      destruct (p_curr_hf p <? p_seg0 p + p_seg1 p) eqn:A4;
+      rewrite ?N.ltb_lt, ?N.ltb_ge in *; try lia.
+  - destruct EX as (A & B & C0 & _). split; [exact A|]. split.
+    + rewrite B. apply (if_shop _ _ _ _ _ _ _ _ F).
+    + rewrite C0. apply (if_sinf _ _ _ _ _ _ _ _ F).
+Qed.
+
+End C07.
